@@ -2,6 +2,7 @@ SPECIFICATION TSpec
 CONSTANTS
   Procs = {1, 2, 3, 4}
   PageOf <- PO4
+  RDepth = 1
   TraceFile = "trace.ndjson"
 INVARIANT XAlways
 INVARIANT WOnlyInM
